@@ -112,6 +112,9 @@ func (e *Exec) call(fr *frame, x *ssa.Call, reach Term, st *State) Term {
 }
 
 func (e *Exec) abstractOK(fr *frame) bool {
+	if e.abstractAll {
+		return true // the unit is marked abstract: also inside the callees it executes inline
+	}
 	if fr != nil && fr.spec != nil && fr.spec.Abstract {
 		return true
 	}
@@ -127,7 +130,45 @@ func (e *Exec) abstractOK(fr *frame) bool {
 func (e *Exec) callStatic(fr *frame, fn *ssa.Function, args []Val, reach Term, st *State, pos token.Pos) ([]Val, Term) {
 	c := e.c
 	ct := e.prog.contractOf(fn)
-	if ct != nil && !ct.Inline && !(e.selfInline(fn)) {
+	if e.pureCalls[fullKey(fn)] {
+		// the callee as an uninterpreted function of its arguments: its contract must say that
+		// it changes nothing; the preconditions are still obligations, the postconditions unused
+		if ct == nil || !ct.HasAssigns || len(ct.Assigns) != 0 {
+			e.fail("purecalls: %s needs a contract with `assigns nothing`", fullKey(fn))
+		}
+		env := &SpecEnv{e: e, pkg: fn.Pkg.Pkg, params: paramEnv(fn, args), cells: st.cells, old: st.cells}
+		for i, r := range ct.Requires {
+			g := e.evalSpecBool(r, env, nil, nil)
+			label := r.Label
+			if label == "" {
+				label = fmt.Sprintf("%d", i)
+			}
+			e.oblige("requires@"+fullKey(fn), label, reach, g, pos)
+			c.assume(c.implies(reach, g), "")
+		}
+		var ats []Term
+		var sorts []string
+		for _, a := range args {
+			for _, t := range a.L {
+				ats = append(ats, t)
+				sorts = append(sorts, t.Sort.String())
+			}
+		}
+		var res []Val
+		rs := fn.Signature.Results()
+		for i := 0; i < rs.Len(); i++ {
+			v := Val{Typ: rs.At(i).Type()}
+			for li, l := range leavesOf(rs.At(i).Type()) {
+				name := fmt.Sprintf("call_%s_%d_%d", sanitize(fullKey(fn)), i, li)
+				c.declareFun(name, sorts, l.Sort)
+				v.L = append(v.L, c.app(l.Sort, name, ats...))
+			}
+			res = append(res, v)
+		}
+		e.trusted["call of "+fullKey(fn)+" abstracted to an uninterpreted function of its arguments (its contract says it assigns nothing)"] = true
+		return res, reach
+	}
+	if ct != nil && !ct.Inline && !e.inlines[fullKey(fn)] {
 		return e.applyContract(ct, fn, args, reach, st, pos)
 	}
 	if !inRepo(fn) || len(fn.Blocks) == 0 {
@@ -292,7 +333,58 @@ func (e *Exec) libraryCall(fn *ssa.Function, args []Val, reach Term, st *State, 
 	e.prog.mu.Lock()
 	e.prog.libCalls[name] = true
 	e.prog.mu.Unlock()
+	if !libReadOnly(name) {
+		// a pointer handed to a library function may be written through: the pointee becomes
+		// arbitrary (e.g. gob Decode(&b.bookMap), Sscanf(&x))
+		var visit func(v Val, depth int)
+		visit = func(v Val, depth int) {
+			if depth > 3 {
+				return
+			}
+			if v.Boxed != nil {
+				visit(*v.Boxed, depth+1)
+			}
+			if v.Typ == nil {
+				return
+			}
+			if pt, ok := v.Typ.Underlying().(*types.Pointer); ok && len(v.L) == 1 {
+				if _, isNamedLib := pt.Elem().(*types.Named); isNamedLib && !strings.Contains(pt.Elem().String(), "FrankyGo") {
+					return // pointer to a library object (receiver, *os.File, ...): not modelled
+				}
+				if v.Addr != nil && v.Addr.Kind >= 0 {
+					c.storeAt(st.cells, v.Addr, c.freshVal(typeAt(v.Addr.Typ, v.Addr.Path), "libwrite"))
+				} else if v.Addr == nil && isNilLit(v) {
+				} else if v.Addr == nil {
+					a := e.addrOfPtr(v)
+					defer func() { recover() }()
+					c.storeAt(st.cells, a, c.freshVal(pt.Elem(), "libwrite"))
+				}
+			}
+		}
+		for _, a := range args {
+			visit(a, 0)
+		}
+	}
 	switch name {
+	case "(*sync.Mutex).Lock", "(*sync.Mutex).Unlock", "(*sync.RWMutex).Lock", "(*sync.RWMutex).Unlock":
+		// ghost state: whether this goroutine holds the lock.  Locking a lock that is already held
+		// by the caller blocks forever; unlocking a lock that is not held panics.
+		key, ok := lockKey(args[0])
+		if !ok {
+			e.fail("mutex without a structural address at %s", e.posStr(pos))
+		}
+		cur := c.cell(st.cells, key, sortBool)
+		if strings.HasSuffix(name, ".Lock") {
+			e.oblige("lock", "not-held:"+cellName(key), reach, c.not(cur), pos)
+			c.assume(c.implies(reach, c.not(cur)), "")
+			st.cells[key] = c.ite(reach, tTrue, cur)
+		} else {
+			e.oblige("lock", "held:"+cellName(key), reach, cur, pos)
+			c.assume(c.implies(reach, cur), "")
+			st.cells[key] = c.ite(reach, tFalse, cur)
+		}
+		e.trusted["sync.Mutex modelled by a ghost flag per lock (held by this goroutine or not); other goroutines are not modelled"] = true
+		return res, reach
 	case "errors.New", "fmt.Errorf":
 		c.assume(c.implies(reach, c.not(c.eq(res[0].T(), Term{"nil_iface", sortIface}))), "errors.New != nil")
 	case "strings.Split":
@@ -300,6 +392,12 @@ func (e *Exec) libraryCall(fn *ssa.Function, args []Val, reach Term, st *State, 
 		c.assume(c.implies(reach, c.app(sortBool, "bvuge", res[0].L[2], bvLitI(64, 1))), "strings.Split returns >= 1 part")
 		c.assume(c.implies(reach, c.app(sortBool, "bvule", res[0].L[2], res[0].L[3])), "")
 		c.assume(c.implies(reach, c.app(sortBool, "bvult", res[0].L[3], bvLitI(64, 1<<40))), "")
+	case "(time.Duration).Nanoseconds":
+		return []Val{scalar(res[0].Typ, args[0].T())}, reach
+	case "(time.Duration).Microseconds":
+		return []Val{scalar(res[0].Typ, c.app(bvSort(64), "bvsdiv", args[0].T(), bvLitI(64, 1000)))}, reach
+	case "(time.Duration).Milliseconds":
+		return []Val{scalar(res[0].Typ, c.app(bvSort(64), "bvsdiv", args[0].T(), bvLitI(64, 1000000)))}, reach
 	case "math.Floor":
 		return []Val{scalar(res[0].Typ, c.def(sortFloat, fmt.Sprintf("(fp.roundToIntegral RTN %s)", args[0].T().S)))}, reach
 	case "math.Log2":
@@ -331,6 +429,28 @@ func (e *Exec) libraryCall(fn *ssa.Function, args []Val, reach Term, st *State, 
 		}
 	}
 	return res, reach
+}
+
+// lockKey: the ghost cell of a mutex given the pointer to it
+func lockKey(v Val) (string, bool) {
+	if v.Addr == nil || v.Addr.Kind != RGlobal {
+		return "", false
+	}
+	fp, idx := pathKey(v.Addr.Typ, v.Addr.Path)
+	if len(idx) > 0 {
+		return "", false
+	}
+	return "g:$lock." + strings.TrimPrefix(v.Addr.Key, "g:") + fp, true
+}
+
+// libReadOnly: library functions known not to write through their arguments
+func libReadOnly(name string) bool {
+	for _, p := range []string{"fmt.", "(*fmt.", "strconv.", "strings.", "(*strings.", "errors.", "math.", "math/bits.", "time.", "(time.", "(*github.com/op/go-logging.", "(*golang.org/x/text/message.Printer)", "regexp.", "(*regexp.", "os.Getenv", "os.Stat", "os.Open", "os.Create", "path/filepath.", "unicode.", "runtime.", "(*os.File).Close", "(*sync.", "(*golang.org/x/sync/semaphore."} {
+		if strings.HasPrefix(name, p) {
+			return true
+		}
+	}
+	return false
 }
 
 func (e *Exec) ctz(t Term) Term {
